@@ -103,7 +103,7 @@ COMP = ch.IOComponent(
     spec="ReqRes", name="Serializer/ArgumentsToResultsZipper", build=build, methods=methods, has_arg=has_arg,
     gen_arg=gen_arg, gen_in=gen_in, tracker=Server, want=want, post=post, module=__name__, has_ghost=True,
     impl_cfg=lambda c: dict(c, w=4),
-    shadow=lambda cfg: [m for m in methods(cfg) if not m.startswith("peek")],   # peek_arg forwards a nonexclusive peek
+    shadow=lambda cfg: [m for m in methods(cfg) if not m.startswith("peek") and m != "clear"],   # peek / clear forward nonexclusive methods
     in_phase=lambda cfg, rng: {"q": rng.choice([0.2, 0.6, 1.0, 1.0]), "p": rng.choice([0.1, 0.5, 1.0]),
                                "lat": rng.choice([[0], [0, 1, 2], [0, 3, 6], [5]])},
 )
